@@ -2,7 +2,7 @@
 PROPERTY = 'C10'
 THOROUGH_SEEDS = 2      # the thorough enumeration of this driver is already minutes long
 LEVEL = 'exploration'
-DEDUCTIVE = ['contracts.c10_stats', 'contracts.c20_array']
+DEDUCTIVE = ['contracts.c10_stats', 'contracts.c20_array', 'contracts.c01_frames']
 BUDGET_S = {'quick': 200.0, 'thorough': 600.0}
 MIN_OBLIGATIONS = {'quick': 1500, 'thorough': 1500}
 BOUNDED_FLOOR = {'quick': 10000, 'thorough': 30000}
